@@ -96,6 +96,10 @@ def ep_dir(request, tok=None):
     return Response('dir|%s|%s' % (tok, rid(request)), headers={'X-Sim-Route': 'dir'})
 
 
+def ep_br(x, request, tok=None):
+    return Response('br|%s|%s|%s' % (x, tok, rid(request)), headers={'X-Sim-Route': 'br'})
+
+
 def ep_ret409(request, tok=None):
     return Conflict(detail='conflict-%s-%s' % (tok, rid(request)))
 
@@ -141,6 +145,7 @@ def build(cfg):
         POST('/post', ep_post),
         ('/boom', ep_boom),
         ('/dir/', ep_dir),
+        ('/br/<x>/', ep_br),
         ('/ret409', ep_ret409),
         ('/raise403', ep_raise403),
         ('/nonresp', ep_nonresp),
